@@ -148,7 +148,7 @@ claimed = {
          "the page-split loops of the default H2D and D2H paths and of the direct-storage H2D path: the chunks tile the source (offset + sizeLeft = length, address = base + offset in every iteration) and the site obligation at "
          "each hand-over proves that the chunk is source[offset : offset+n] (resp. the destination window), goes to page.PAddr + (addr - page.VAddr) for the page looked up for that very address, and never crosses the end of that page; "
          "the H2D path keeps the requests already awaiting transmission. The direct-storage D2H path is under contract too (chunks, per-chunk page lookup, tiling) and carries the obligation that the storage is read directly only when no overlapping buffer is marked as holding dirty L2 data; that obligation fails on the current code and is a recorded finding (the direct path never flushes). "
-         "The DMA engine's completion bookkeeping is under contract for data placement only."),
+         "The DMA engine's completion bookkeeping is under contract for data placement only. The emulator's own access path (storageAccessorImpl.Read/Write) splits an access of any size at page boundaries: each chunk is looked up at its own virtual address, stays inside one page, goes to that page's physical address plus the in-page offset, and the chunks tile the access."),
    note=(TB + "The page table, the allocator behind its interface, message constructors, bytes/binary and tracing are external (extern declarations: frame-only, results unconstrained; constructors return fresh objects). "
          "Wrap-around of address + size is modelled as the machine computes it. One known finding (direct-storage copies ignore dirty caches; demonstrated at driver level in the thorough tier: the driver's own needFlushing rule says flush, the direct path completes without one)."),
    design="5 (C11)", technique="deductive verification: WP-style VC generation over go/ssa + SMT (loop invariants and call-site obligations)"),
@@ -165,7 +165,8 @@ claimed = {
    text=("Under contract: distributorImpl.Distribute (mathematical integers, page sizes 2^12..2^16): the remapped windows are consecutive, window i of the first numGPUsToUse GPUs starts at page i*numPagesPerGPU, the remainder pages follow one by one on the last GPU used, "
          "no window reaches beyond the buffer's pages and together they cover exactly numPages pages (site obligations at both Remap calls and at the return); "
          "the RDMA engine consumes a reply from the owning GPU only after the requester-side port accepted the copy (processRspFromRDMARequestOutside). The unified-device work-group ranges are proved under C08 (distributeWGToGPUs). "
-         "Multi-GPU result equivalence as a whole, page migration ordering and the RDMA request path are not under contract."),
+         "On the request paths the engine copies a request with the same kind, address, size, data and mask (cloneReq), consumes the original from its port only after the other side's port accepted the copy, and remembers the pair (processReqFromL1, processReqFromRDMADataOutside). "
+         "Multi-GPU result equivalence as a whole, page migration ordering, the destination written into the copy (set through the message's Meta accessor) and the reply path from L2 are not under contract."),
    note=(TB + "The allocator behind its interface, akita ports and the RDMA component's transaction scan are external (extern declarations)."),
    design="5 (C18)", technique="deductive verification: WP-style VC generation over go/ssa + SMT (integer mode with overflow obligations, call-site obligations)"),
 }
